@@ -232,7 +232,7 @@ func runC10(c *core.Ctx) {
 						continue
 					}
 					for _, nc := range configsFor(s, ft, false) {
-						if nc.Cfg.Car == world.CarNative || nc.Cfg.Bind == world.BindRegisterFields {
+						if nc.Cfg.Car != world.CarSlice || nc.Cfg.Bind == world.BindRegisterFields {
 							continue
 						}
 						g := g0
@@ -436,7 +436,7 @@ func c10DefinitionDirectives(c *core.Ctx, s *world.Schema, d *world.Doc, dist in
 					}
 					required := target == "operation:"+exeOp.Name || (strings.HasPrefix(target, "fragment:") && reach(nd, exeOp)[strings.TrimPrefix(target, "fragment:")])
 					for _, nc := range configsFor(s, ft, false) {
-						if nc.Cfg.Car == world.CarNative || nc.Cfg.Bind == world.BindRegisterFields {
+						if nc.Cfg.Car != world.CarSlice || nc.Cfg.Bind == world.BindRegisterFields {
 							continue
 						}
 						g := g0
